@@ -300,10 +300,39 @@ class Main {
 }
 "#;
 
+
+const COMMENTED: &str = r#"/* leading */ import /* a */ { /* b */ Pair /* c */, /* d */ Triple /* e */ } /* f */ from /* g */ std.tuples /* h */ ; // i
+// line comment before a class
+/** doc comment */
+class /* c1 */ Point /* c2 */ < /* c3 */ T /* c4 */ > /* c5 */ ( /* c6 */ val /* c7 */ x /* c8 */ : /* c9 */ T /* c10 */ , /* c11 */ private val y: int /* c12 */ ) /* c13 */ { /* c14 */
+  /** doc of a member */
+  // line comment before a member
+  method /* m1 */ get /* m2 */ ( /* m3 */ a /* m4 */ : /* m5 */ int /* m6 */ , b: (int /* m7 */ ) -> /* m8 */ int ) /* m9 */ : /* m10 */ int /* m11 */ = /* m12 */ {
+    // statement comment
+    let /* s1 */ z /* s2 */ : /* s3 */ int /* s4 */ = /* s5 */ a /* s6 */ + /* s7 */ b( /* s8 */ 1 /* s9 */ ) /* s10 */ ; /* s11 */
+    let (p /* t1 */, /* t2 */ q) = ( /* t3 */ 1, 2 /* t4 */ ); // trailing line comment
+    let { x as /* o1 */ first /* o2 */, y /* o3 */ } = this;
+    /* before the final expression */
+    if /* i1 */ z > 0 /* i2 */ { /* i3 */ z /* i4 */ } /* i5 */ else /* i6 */ if z < 0 { 0 - z } else /* i7 */ { /* i8 */ 0 /* i9 */ }
+    // comment at the end of a block
+  } /* after the member */
+  function /* f1 */ <A /* f2 */ , B: /* f3 */ Pair<A, A>> pick(o: Opt<A>, f: (A, /* f4 */ B) -> A): int = /* f5 */ match /* f6 */ o /* f7 */ { /* f8 */
+    // comment before an arm
+    Some( /* a1 */ v /* a2 */ ) /* a3 */ -> /* a4 */ 1, /* a5 */
+    /* before the last arm */ None -> ((x /* l1 */, y: int /* l2 */) -> /* l3 */ x)(1, 2) /* a6 */,
+    // comment after the last arm
+  }
+  // comment at the end of a class
+} // after the class
+class Opt<T>(/* v1 */ None /* v2 */, /* v3 */ Some( /* v4 */ T /* v5 */ ) /* v6 */) {}
+/* before an interface */ private /* p1 */ interface /* p2 */ Show /* p3 */ : /* p4 */ Other /* p5 */ { /* p6 */ method /* p7 */ show(): Str /* p8 */ } /* trailing comment of the module */
+// the very last line comment
+"#;
+
 #[test]
 fn verif_witness_search_modules() {
   let root = std::path::Path::new(env!("CARGO_MANIFEST_DIR")).join("../..");
-  let mut files: Vec<(String, String)> = vec![("<constructs>".to_string(), EXTRA.to_string())];
+  let mut files: Vec<(String, String)> = vec![("<constructs>".to_string(), EXTRA.to_string()), ("<comments everywhere>".to_string(), COMMENTED.to_string())];
   for dir in ["std", "tests"] {
     if let Ok(rd) = std::fs::read_dir(root.join(dir)) {
       let mut paths = rd.filter_map(|e| e.ok()).map(|e| e.path()).filter(|p| p.extension().is_some_and(|x| x == "sam")).collect::<Vec<_>>();
@@ -320,8 +349,8 @@ fn verif_witness_search_modules() {
     let heap = &mut Heap::new();
     let (e1, m1) = parse(heap, text);
     if e1 != 0 {
-      if name == "<constructs>" {
-        println!("WITNESS-SEARCH-BROKEN: the hand-written module does not parse");
+      if name.starts_with('<') {
+        println!("WITNESS-SEARCH-BROKEN: the hand-written module {name} does not parse");
         return;
       }
       continue;
